@@ -411,6 +411,34 @@ func runC06(c *Ctx) {
 		c.undecided("C06-R1: found %d server.Route literals built from *ast.Route in cmd/glyph, floor 2", n)
 	}
 	routeLiteralFidelity(c, "C06-R1", "Auth", "parseAuthConfig")
+	// a compiled registration pairs a declaration with the code compiled from that very declaration: the bytecode
+	// handed over is looked up under the key of the route handed over
+	{
+		nr := 0
+		for _, fn := range c.srcFuncs(glyphCmd) {
+			k := 0
+			eachCall(fn, func(cl ssa.CallInstruction) {
+				if callName(cl) != modPath+"/cmd/glyph.registerCompiledRoute" || len(cl.Common().Args) < 3 {
+					return
+				}
+				k++
+				nr++
+				route, code := cl.Common().Args[1], cl.Common().Args[2]
+				same := derivesFrom(code, func(v ssa.Value) bool {
+					lk, ok := v.(*ssa.Lookup)
+					if !ok {
+						return false
+					}
+					return derivesFrom(lk.Index, func(z ssa.Value) bool {
+						kc, ok := z.(*ssa.Call)
+						return ok && strings.HasSuffix(callName(kc), "/cmd/glyph.compiledRouteKey") && len(kc.Call.Args) == 1 && kc.Call.Args[0] == route
+					})
+				})
+				c.ob("C06-R1", fnKey(fn)+"#compiled-code-of-the-declaration-registered-"+itoa(k), cl.Pos(), same, "the bytecode registered with a declaration is not looked up under that declaration's own key: with one method and path declared twice, the protected first declaration's body is registered with the middlewares of the unprotected second one (or the other way round) - `+ auth(jwt)` body served without a credential in compiled mode only")
+			})
+		}
+		c.Sites["C06-R1#compiled-registrations"] = nr
+	}
 
 	// ---- R2 dispatch
 	c.rule("C06-R2", "MPT: in every dispatcher (cmd/glyph.createHandler's closure, pkg/server.Handler.ServeHTTP) each call of a handler derived from route.Handler also derives from applying the elements of route.Middlewares, and the fold's index range covers 0..len-1 (loop bounds evaluated at len=3)")
